@@ -146,7 +146,7 @@ Json::Value gen() {
   for (int t = 0; t < nticks; t++) {
     Json::Value tick(Json::objectValue);
     int k = W({45, 35, 20});
-    tick["adv_ms"] = (k == 0 ? 5 : k == 1 ? R(1, 20) : R(0, 3)) * 1000;
+    tick["adv_ms"] = (k == 0 ? 5 : k == 1 ? R(1, 20) : R(0, 3)) * 1000 + subsecMs();
     Json::Value ops(Json::arrayValue);
     if (t > 0) {
       for (auto& p : kCands) {
